@@ -167,6 +167,8 @@ func (ex *Exec) resetStats(job Job, verbose int) {
 	ex.paths, ex.branches, ex.forks, ex.instrs, ex.modelHits = 0, 0, 0, 0, 0
 	ex.params = job.Params
 	ex.preemptBound = job.Params["preempt"]
+	ex.hbOn = job.Params["hbrace"] != 0
+	ex.hbRaces = nil
 	ex.curHarness = spec.Name
 	ex.solver.stats = SolverStats{}
 	ex.qcache = nil // term ids are global, but keep the cache per job to bound memory
